@@ -395,7 +395,7 @@ PARTS = {
                      "buffer ending at an inaccessible page",
                 oracles={"tagged_getn": o_getn}, classify=classify_getn),
     "C05": dict(coq_props=["Properties_C05"], files=FILES, rule=RULE, generate=generate,
-                oracles=ORACLES_C05, classify=classify, search=search,
+                oracles=ORACLES_C05, classify=classify, search=search, minimise=["tagged_tuple_cmp"],
                 assumptions=["memcmp over min(len) then length, as C callers compare keys"],
                 configs_quick=["pinned", "O0"]),
 }
